@@ -204,7 +204,7 @@ def run(ctx):
     scratch = tempfile.mkdtemp(prefix="c16_")
     try:
         # T:s3 = rows handed over in another order (the source sorts them), T:d3 / T:a3 / T:p2 = delayed / array / persisted sources
-        plan = ([(["T:3"], [2, 1]), (["T:s3", "T:d3", "T:a3", "T:p2", "T:u4"], [2])] if quick else
+        plan = ([(["T:3"], [2, 1]), (["T:s3", "T:d3", "T:a3", "T:p2", "T:u4"], [2])] + explore.extra_stages("light") if quick else
                 [(["T:3"], [2, 2]), (["T:m0,5,5,9", "T:u4", "T:s3", "T:d3", "T:a3", "T:p2"], [2, 1])])
         ctx.rule = ("E1 BFS over programs x {logical, optimize(), optimize(fuse=False), lower_completely()}: one child forked from the pristine parent builds the "
                     "collection, pickles it and records name / schema / divisions / result; a DIFFERENT child forked from the pristine parent (all planner caches empty, "
